@@ -14,14 +14,20 @@ MSG = "stun_types::message::Message::<'a>::"
 
 def run(prog, chk, tier):
     chk.explanation = ("Structural necessary conditions of the accepted language, each decided for all inputs: (1) length agreement "
-                       "len(buffer) = declared length + 20 on every Ok return (E2); (2) header acceptance table; (3) ending-attribute "
-                       "automaton extracted from MIR over 8 seen-sets x 4 classes + CRC-mismatch rows (E3); (4) tiling: the walk advances by "
+                       "len(buffer) = declared length + 20 on every Ok return (E2); (2) header acceptance table; (3) ordering of the ending "
+                       "attributes: the walk is executed abstractly with the decoder of one attribute replaced by a summary handing out an "
+                       "attribute of a chosen class (MI, MI-SHA256, FINGERPRINT, other) with symbolic length and bytes; every class sequence "
+                       "up to a bound is its own path and is compared with the specification (only integrity/fingerprint after integrity, "
+                       "nothing after FINGERPRINT, no repeats, refusal naming the offending type, acceptance of a FINGERPRINT only after "
+                       "the CRC comparison succeeded); in the thorough tier the bookkeeping the walk carries is shown to revisit explored "
+                       "situations beyond the bound; (4) tiling: the walk advances by "
                        "padded_len of the attribute just parsed, refuses an over-long attribute, returns Ok only on an empty remainder; "
                        "(6) faithful exposure: getters read the offsets the header decoder validated, lookups are first-match over the "
                        "iterator; (7) error fields: Truncated has expected > actual, TooLarge expected < actual. NOT decided: equality with "
                        "an independent reference decoder on arbitrary bytes; CRC arithmetic.")
     chk.trusted += ["external-callee model table", "spec tables transcribed from the property statement", "rustc MIR construction"]
-    P.parser_automaton(prog, chk)
+    from rules import walk_e2 as W
+    W.ending_automaton(prog, chk, depth=4 if tier == "quick" else 5)
     e2_clauses(prog, chk)
     header_table(prog, chk)
     tiling(prog, chk)
